@@ -86,7 +86,7 @@ def families(tier):
     combos = c01.shapes("x64-elf")
     for combo in (combos if tier == "thorough" else combos[5::24]):
         fam.append(("c01", c01.make_spec("x64-elf", list(combo), "one"), "c01"))
-    for term, follow in ([(t, f) for t in c03.TERMS for f in c03.FOLLOW] if tier == "thorough" else [("none", "same"), ("call", "data"), ("ret", "same")]):
+    for term, follow in ([(t, f) for t in c03.TERMS for f in c03.FOLLOW if not (t == "jccnext" and f not in ("same", "other"))] if tier == "thorough" else [("none", "same"), ("call", "data"), ("ret", "same")]):
         fam.append(("c03", c03.make_spec(term, follow, 1, True), "c03"))
     for name in (c06.LAYOUTS if tier == "thorough" else ("data-between",)):
         fam.append(("c06", c06.make_spec(name), "c06"))
